@@ -22,6 +22,7 @@ KINDS = {
     "nested": ("corr_nested", "law_nested", "C04.Corr.ncase"),
     "ndict": ("corr_ndict", "law_ndict", "C04.Corr.ndcase"),
     "deep": ("corr_deep", "law_deep", "C04.Deep.dpcase"),
+    "default": ("corr_default", "law_default", "C04.Corr.dfl"),
 }
 BOUNDS = [(0, None), (0, None), (0, 0), (0, 1), (0, 2), (0, 3), (1, None), (1, 1), (1, 2), (1, 3), (2, None), (2, 2),
           (2, 3), (3, None), (3, 3), (0, 5), (2, 6)]
@@ -55,7 +56,7 @@ def list_term(case, obs):
             # source "self": the value assigned is the trait's own current value
             t = C("LAssign", bool(op[1]), list(prev if (len(op) > 3 and op[3] == "self") else op[2]))
         else:
-            t = C("LOp", c05.op_term(op))
+            t = C("LOp", c05.op_term(op, prev))
         prev = list(ob["after"])
         h.append((t, c05.obs_term(dict(ob, out=ob["out"] if ob["out"] in ("Ok", "IndexError", "ValueError",
                                                                           "TraitError", "TypeError") else "OtherError"))))
@@ -76,6 +77,9 @@ def gen_list(rnd, ctx, maxops, maxinit):
             ctx.count("op:list.Assign-" + src)
         ops.append(op)
     case.update(kind="list", ops=ops)
+    if rnd.random() < 0.25:
+        case["init_mode"] = "default"           # start from the declared default instead of an assigned value
+        ctx.count("init:list.default")
     ctx.count("bounds:%s..%s" % bounds)
     return case
 
@@ -148,7 +152,10 @@ def gen_set(rnd, ctx, maxops):
             op = ["Assign", src != "plain" or rnd.random() < 0.85, items(), src]
         ops.append(op)
         ctx.count("op:set." + k)
-    return dict(kind="set", vk=vk, init=init, ops=ops)
+    case = dict(kind="set", vk=vk, init=init, ops=ops)
+    if rnd.random() < 0.25:
+        case["init_mode"] = "default"
+    return case
 
 
 # ---------------------------------------------------------------- dict
@@ -225,7 +232,10 @@ def gen_dict(rnd, ctx, maxops):
             op = ["Assign", src != "plain" or rnd.random() < 0.85, pairs(), src]
         ops.append(op)
         ctx.count("op:dict." + k)
-    return dict(kind="dict", kk=kk, vk=vk, init=init, ops=ops)
+    case = dict(kind="dict", kk=kk, vk=vk, init=init, ops=ops)
+    if rnd.random() < 0.25:
+        case["init_mode"] = "default"
+    return case
 
 
 # ---------------------------------------------------------------- List(List(T))
@@ -536,8 +546,47 @@ def gen_deep(rnd, ctx, maxops):
     return dict(kind="deep", vk=vk, bounds=[list(b) for b in bounds], init=init, ops=ops)
 
 
+# ---------------------------------------------------------------- default values (first read)
+def res_term(out, content):
+    if out == "Ok":
+        return C("Ok", content)
+    return C("Raise", C(out if out in ("IndexError", "ValueError", "TraitError", "TypeError") else "OtherError"))
+
+
+def default_term(case, obs):
+    ob = obs[0]
+    if case["sub"] == "list":
+        return C("DfList", C(case["vk"]), case["minlen"], opt(case["maxlen"]), list(case["d"]),
+                 res_term(ob["out"], list(ob["after"] or [])))
+    if case["sub"] == "set":
+        return C("DfSet", C(case["vk"]), list(case["d"]), res_term(ob["out"], list(ob["after"] or [])))
+    return C("DfDict", C(case["kk"]), C(case["vk"]), [(a, b) for a, b in case["d"]],
+             res_term(ob["out"], [(a, b) for a, b in (ob["after"] or [])]))
+
+
+def gen_default(rnd, ctx):
+    """a declared default: valid, with a convertible / invalid item, below minlen, above maxlen, the implicit empty one"""
+    sub = rnd.choice(["list", "list", "list", "set", "dict"])
+    vk = rnd.choice(["VInt", "VCInt", "VCInt", "VInc", "VAll"])
+
+    def item():
+        r = rnd.random()
+        # the float atom 303 (== 3) only in lists: the set / dict models have no Python-equality classes
+        return rnd.randint(0, 9) if r < 0.75 else rnd.choice([103, 105, 200, 201] + ([303] if sub == "list" else []))
+    ctx.count("default:" + sub)
+    if sub == "list":
+        mn, mx = rnd.choice(BOUNDS)
+        n = rnd.choice([0, 0, 1, 2, 3, 4, mn, max(mn - 1, 0), (mx if mx is not None else mn) + 1])
+        return dict(kind="default", sub=sub, vk=vk, minlen=mn, maxlen=mx, d=[item() for _ in range(n)], ops=[["Read"]])
+    if sub == "set":
+        return dict(kind="default", sub=sub, vk=vk, d=sorted(set(item() for _ in range(rnd.randint(0, 4)))), ops=[["Read"]])
+    kk = rnd.choice(["VInt", "VCInt", "VInc"])
+    keys = sorted(set(item() for _ in range(rnd.randint(0, 3))))
+    return dict(kind="default", sub=sub, kk=kk, vk=vk, d=[[k, item()] for k in keys], ops=[["Read"]])
+
+
 TERMS = {"list": list_term, "set": set_term, "dict": dict_term, "nested": nested_term, "ndict": ndict_term,
-         "deep": deep_term}
+         "deep": deep_term, "default": default_term}
 
 
 def op_name(kind, op):
@@ -552,11 +601,14 @@ def op_name(kind, op):
         return "Inner/" + c05.op_shape(op[2])
     if kind == "deep" and op[0] == "Path":
         return "Path%d/%s" % (len(op[1]), op[2][0])
+    if kind == "default":
+        return "Read"
     return op[0]
 
 
 def key_fn(case, obs, step, clause):
-    return "%s/%s/%s" % (CLAUSE.get(clause, clause), case["kind"], op_name(case["kind"], case["ops"][step]))
+    kind = case["kind"] + ("-" + case["sub"] if case["kind"] == "default" else "")
+    return "%s/%s/%s" % (CLAUSE.get(clause, clause), kind, op_name(case["kind"], case["ops"][step]))
 
 
 def describe(case, obs, step, clause):
@@ -629,6 +681,19 @@ def corpus():
         ["Assign", [[101, [1, 2, 3]]], "deepcopy"], ["Assign", [[101, {"loose": [1, 2, 3]}]], "deepcopy"],
         ["Assign", [[3, [1]]], "orphan"], ["Assign", [[101, {"loose": [105]}]], "plain"], ["SetItem", 102, {"loose": [1, 200]}, True],
         ["Assign", [[101, {"loose": [4, 5]}], [102, [6]]], "orphan"], ["SetItem", 103, {"loose": [7]}, False]]))
+    for vk in ("VInt", "VCInt"):
+        cs.append(dict(kind="default", sub="list", vk=vk, minlen=2, maxlen=None, d=[], ops=[["Read"]]))
+        cs.append(dict(kind="default", sub="list", vk=vk, minlen=0, maxlen=3, d=[1, 2, 3, 4], ops=[["Read"]]))
+        cs.append(dict(kind="default", sub="list", vk=vk, minlen=1, maxlen=3, d=[1, 2], ops=[["Read"]]))
+        cs.append(dict(kind="default", sub="list", vk=vk, minlen=0, maxlen=None, d=[1, 105], ops=[["Read"]]))
+        cs.append(dict(kind="default", sub="list", vk=vk, minlen=0, maxlen=None, d=[1, 200], ops=[["Read"]]))
+        cs.append(dict(kind="default", sub="set", vk=vk, d=[1, 105], ops=[["Read"]]))
+        cs.append(dict(kind="default", sub="set", vk=vk, d=[1, 200], ops=[["Read"]]))
+        cs.append(dict(kind="default", sub="dict", kk=vk, vk="VInt", d=[[1, 2], [105, 3]], ops=[["Read"]]))
+        cs.append(dict(kind="default", sub="dict", kk=vk, vk="VInt", d=[[1, 105]], ops=[["Read"]]))
+    cs.append(dict(kind="list", vk="VInt", minlen=1, maxlen=3, init=[1, 2], init_mode="default", ops=[
+        ["Append", 3], ["Append", 4], ["Pop", None], ["SetInt", 0, 200], ["Extend", None, "self"], ["Clear"],
+        ["ImulQ", 1, 2, "float"], ["ImulQ", 5, 2, "float"], ["ImulQ", 3, 2, "fraction"], ["Imul", 0, "bool"]]))
     cs.append(dict(kind="deep", vk="VCInt", bounds=[[1, 2], [1, None], [0, 2]], init=[[[1], []]], ops=[
         ["Path", [0, 0], ["GAppend", 105]], ["Path", [0, 0], ["GAppend", 3]], ["Path", [0, 1], ["GAppend", 200]],
         ["Path", [0], ["GSetInt", 1, [1, 2, 3]]], ["Path", [], ["GAppend", 7]], ["Path", [], ["GAppend", [[109]]]],
@@ -728,6 +793,7 @@ def run(ctx):
         groups["nested"] += [gen_nested(rnd, ctx, counts["nested"][1]) for _ in range(counts["nested"][0])]
         groups["ndict"] += [gen_ndict(rnd, ctx, counts["ndict"][1]) for _ in range(counts["ndict"][0])]
         groups["deep"] += [gen_deep(rnd, ctx, counts["deep"][1]) for _ in range(counts["deep"][0])]
+        groups["default"] += [gen_default(rnd, ctx) for _ in range(150 if quick else 4000)]
         ssets, sdicts = small_scope_cases(rnd, stride=60 if quick else 1)
         groups["set"] += ssets
         groups["dict"] += sdicts
